@@ -655,8 +655,38 @@ pub struct ClientRun {
     pub excluded_known: u32,
 }
 
+/// tracing caches per-callsite interest globally. While exactly one dispatcher is registered it
+/// evaluates callsites against the *current thread's* default, so a thread without a subscriber
+/// can disable a callsite for the one thread that has one. Keeping two inert dispatchers registered
+/// for the life of the process forces the exact (all registered dispatchers) path.
+fn pin_tracing_registry() {
+    static ONCE: std::sync::Once = std::sync::Once::new();
+    ONCE.call_once(|| {
+        struct Inert;
+        impl tracing::Subscriber for Inert {
+            fn register_callsite(&self, _: &'static tracing::Metadata<'static>) -> tracing::subscriber::Interest {
+                tracing::subscriber::Interest::never()
+            }
+            fn enabled(&self, _: &tracing::Metadata<'_>) -> bool {
+                false
+            }
+            fn new_span(&self, _: &tracing::span::Attributes<'_>) -> tracing::span::Id {
+                tracing::span::Id::from_u64(0xDEAD)
+            }
+            fn record(&self, _: &tracing::span::Id, _: &tracing::span::Record<'_>) {}
+            fn record_follows_from(&self, _: &tracing::span::Id, _: &tracing::span::Id) {}
+            fn event(&self, _: &tracing::Event<'_>) {}
+            fn enter(&self, _: &tracing::span::Id) {}
+            fn exit(&self, _: &tracing::span::Id) {}
+        }
+        std::mem::forget(tracing::Dispatch::new(Inert));
+        std::mem::forget(tracing::Dispatch::new(Inert));
+    });
+}
+
 pub fn subscriber_guard(mode: u8) -> Option<tracing::subscriber::DefaultGuard> {
     use tracing_subscriber::prelude::*;
+    pin_tracing_registry();
     match mode {
         1 => {
             let sub = tracing_subscriber::fmt()
